@@ -107,7 +107,10 @@ def compare_case(kind, impl, model, fields=None):
 
 
 def read_obs(path):
+    import os
     d = {}
+    if os.path.exists(path + ".hang"):
+        d.update(read_obs(path + ".hang"))      # the harness watchdog's record of a reader run that never returned
     with open(path, encoding="utf-8", errors="replace") as f:
         for line in f:
             line = line.rstrip("\n")
